@@ -32,6 +32,8 @@ A2 == {Un(k, x) : k \in {"neg", "abs"}, x \in A1}
       \cup {Bi(k, l, r) : k \in ArOps, l \in Leaves, r \in A1}
 CmpOps == {"lt", "le", "gt", "ge", "eq", "ne"}
 C1 == {Bi(k, l, r) : k \in CmpOps, l \in TLeaves \cup {Bi("add", T("a"), T("b")), Un("neg", T("c"))}, r \in Leaves \cup {Bi("mul", T("b"), S)}}
+      \* the scalar on the LEFT of a comparison (its own overload: the operands must not be swapped)
+      \cup {Bi(k, S, r) : k \in CmpOps, r \in TLeaves \cup {Bi("add", T("a"), T("b"))}}
 L2 == {Un("not", x) : x \in C1} \cup {Bi(k, Bi("lt", T("a"), T("b")), x) : k \in {"and", "or"}, x \in C1}
 
 Sizes == <<1, 3, 4, 7, 8, 15, 16, 17, 33, 35>>
